@@ -116,6 +116,8 @@ def limit_specs(n):
             continue
         specs.append(("max_dims", list(vec), list(vec)))
         specs.append(("temp-list", list(vec), list(vec)))
+        # explicit per-bond limits LARGER than the scalar the config was constructed with (which only seeds max_dims lazily)
+        specs.append(("max_dims-above-constructor-value", list(vec), list(vec)))
     return specs
 
 
@@ -245,6 +247,11 @@ def run_chain(desc, seed):
         elif style == "max_dims":
             def cfg(m, payload=payload):
                 m.compress_config = CompressConfig(CompressCriteria.fixed, max_bonddim=64)
+                m.compress_config.max_dims = np.array([1] + payload + [1])
+                return None
+        elif style == "max_dims-above-constructor-value":
+            def cfg(m, payload=payload):
+                m.compress_config = CompressConfig(CompressCriteria.fixed, max_bonddim=1)
                 m.compress_config.max_dims = np.array([1] + payload + [1])
                 return None
         else:
